@@ -195,6 +195,13 @@ DoAddList(S, p, Src, q, deep, pos, why, emptyErr) ==
        dup  == \E i \in 1..Len(srcs) : Src.did[srcs[i]] \in SeqSet(KidDids(S, p))
    IN IF srcs = <<>> THEN (IF emptyErr = {} THEN Result(TRUE, NoErr, why \o ":empty", 0, S)
                                                ELSE Refuse(S, emptyErr, why \o ":empty"))
+      ELSE IF PosOOB(seq, pos) THEN      \* like DoAdd: carried out as an append (in the source's order) OR refused
+           (IF dup THEN Refuse(S, AnyErr \cup {"UniqueConstraintError"}, why \o ":oob_dup")
+            ELSE LET R == FoldLeft(LAMBDA acc, c :
+                             [st |-> CopyNodeAt(acc.st, p, acc.at, Src, c, CopyKind(acc.st, Src, c, 0), deep),
+                              at |-> acc.at + 1],
+                             [st |-> S, at |-> Len(seq) + 1], srcs)
+                 IN Result(TRUE, AnyErr, why \o ":oob", S.n + 1, R.st))
       ELSE IF at = 0 THEN Refuse(S, AnyErr \cup (IF dup THEN {"UniqueConstraintError"} ELSE {}), why \o ":badpos")
       ELSE IF dup THEN Refuse(S, {"UniqueConstraintError"}, why \o ":dup")
       ELSE LET R == FoldLeft(LAMBDA acc, c :
